@@ -106,6 +106,9 @@ class Expr:
 
     def call(self, t, bb, depth=0):
         args = tuple(self.operand(a, depth) for a in t["args"])
+        # `anyhow::ensure!(c)` tests `anyhow::__private::not(c)`: plain negation
+        if callee_name(t) == "anyhow::__private::not" and len(args) == 1:
+            return ("un", "Not", args[0])
         return ("call", callee_name(t), args, bb)
 
     def rvalue(self, rv, depth=0):
